@@ -151,7 +151,11 @@ def run(module, cfg, *, workers=16, simulate=None, depth=None, seed=None, covera
     res['module'] = module
     res['cached'] = False
     if keep_out or not res['ok']:
-      res['out_tail'] = out[-6000:]
+      i = out.find('Error:')
+      if 'Parsing or semantic analysis failed' in out:
+        i = max(0, out.find('Semantic errors') if 'Semantic errors' in out else out.find('***'))
+      j = out.find('The coverage statistics')
+      res['out_tail'] = (out[i:j if j > i else None][:12000] if i >= 0 else out[-6000:])
     if res['ok'] and cache:
       os.makedirs(cdir, exist_ok=True)
       json.dump(res, open(cfile + '.tmp', 'w'))
